@@ -18,7 +18,8 @@
 From LV Require Import Base.Bytes Base.Sx Model.Obj Model.Writer Model.Parser Model.Save Model.Xref Model.Loader
   Model.Utf Gen.Lex Gen.SaveFmt Proofs.LexProofs Proofs.RealProofs Proofs.ObjectRtProofs Proofs.SaveProofs
   Proofs.FilterProofsDict Spec.SaveSpec Proofs.LoadProofs Proofs.LoadProofsFile Proofs.LoadProofsXref
-  Proofs.LoadProofsTable Proofs.LoadProofsAgain Proofs.LoadProofsStream Proofs.LoadProofsFull.
+  Proofs.LoadProofsTable Proofs.LoadProofsAgain Proofs.LoadProofsStream Proofs.LoadProofsFull
+  Model.ObjStm Model.LoaderExt Model.LoaderEnc.
 From Coq Require Import ZifyBool ZifyN ZifyNat Permutation.
 
 Local Open Scope N_scope.
@@ -435,4 +436,401 @@ Proof.
   { rewrite !startxref_len. pose proof (N_dec_mono (blen (body_of (reloaded_table d))) (blen (body_of d))) as K.
     unfold blen in *. lia. }
   rewrite !app_length. lia.
+Qed.
+
+(* ================================ STREAM FORMAT ================================ *)
+
+(* ---------- content and Index of the cross-reference stream, from the shape of the sub-sections ---------- *)
+Definition cnt (sh : list (N * nat)) : nat := list_sum (map snd sh).
+Definition pair_len (s : N * nat) : nat := (2 + length (N_dec (fst s)) + length (N_dec (N.of_nat (snd s))))%nat.
+Definition itl (sh : list (N * nat)) : nat := list_sum (map pair_len sh).
+
+Lemma list_sum_cons a l : list_sum (a :: l) = (a + list_sum l)%nat.
+Proof. reflexivity. Qed.
+
+Lemma be_bytes_length : forall w n, length (Save.be_bytes w n) = w.
+Proof. induction w as [|w IH]; intro n; cbn [Save.be_bytes]; [reflexivity|]. rewrite app_length, IH. cbn [length]. lia. Qed.
+
+Lemma xstream_entry_len id e : length (xstream_entry id e) = 7%nat.
+Proof. destruct e; cbn [xstream_entry length]; rewrite app_length, !be_bytes_length; reflexivity. Qed.
+
+Lemma xstream_entries_len : forall es id, length (xstream_entries id es) = (7 * length es)%nat.
+Proof.
+  induction es as [|e es IH]; intro id; cbn [xstream_entries]; [reflexivity|].
+  rewrite app_length, IH, xstream_entry_len. cbn [length]. lia.
+Qed.
+
+Lemma xstream_content_len secs : length (xstream_content secs) = (7 * cnt (shape secs))%nat.
+Proof.
+  unfold xstream_content, cnt. induction secs as [|s secs IH]; [reflexivity|].
+  cbn [flat_map shape map list_sum snd]. fold (shape secs). rewrite app_length, IH, xstream_entries_len.
+  change (list_sum (length (snd s) :: map snd (shape secs))) with (length (snd s) + list_sum (map snd (shape secs)))%nat. lia.
+Qed.
+
+Definition idx_items (secs : list xsection) : list obj :=
+  flat_map (fun s : xsection => [OInt (Z.of_N (fst s)); OInt (Z.of_nat (length (snd s)))]) secs.
+
+Lemma arr_tail_app a b : write_arr_tail (a ++ b) = write_arr_tail a ++ write_arr_tail b.
+Proof. induction a as [|x a IH]; [reflexivity|]. cbn [app write_arr_tail]. rewrite IH, <- !app_assoc. reflexivity. Qed.
+
+Lemma idx_tail_len secs : length (write_arr_tail (idx_items secs)) = itl (shape secs).
+Proof.
+  unfold idx_items, itl. induction secs as [|s secs IH]; [reflexivity|].
+  cbn [flat_map shape map list_sum]. fold (shape secs). rewrite arr_tail_app, app_length, IH. f_equal.
+  unfold pair_len. cbn [fst snd write_arr_tail write_object]. rewrite <- nat_N_Z, !Z_dec_of_N.
+  repeat (rewrite !app_length; cbn [length]).
+  change (sp_if (need_separator (OInt (Z.of_N (fst s))))) with [x20].
+  change (sp_if (need_separator (OInt (Z.of_N (N.of_nat (length (snd s))))))) with [x20]. cbn [length]. rewrite list_sum_cons. lia.
+Qed.
+
+Lemma arr_tail_le_items l : (length (write_arr_tail l) <= length (arr_items l) + 1)%nat.
+Proof.
+  destruct l as [|x l]; cbn [write_arr_tail arr_items]; [cbn; lia|]. rewrite !app_length.
+  destruct (need_separator x); cbn [sp_if length]; lia.
+Qed.
+
+Lemma index_wlen secs :
+  (wlen (xstream_index secs) <= 2 + itl (shape secs) /\ itl (shape secs) + 1 <= wlen (xstream_index secs))%nat.
+Proof.
+  unfold wlen. change (xstream_index secs) with (OArr (idx_items secs)). rewrite write_arr_eq. cbn [length]. rewrite app_length. cbn [length].
+  rewrite <- idx_tail_len. pose proof (arr_items_le (idx_items secs)). pose proof (arr_tail_le_items (idx_items secs)). lia.
+Qed.
+
+Lemma norm_index secs : norm_obj (xstream_index secs) = xstream_index secs.
+Proof.
+  unfold xstream_index. cbn [norm_obj]. f_equal. induction secs as [|s secs IH]; [reflexivity|].
+  cbn [flat_map]. rewrite map_app, IH. reflexivity.
+Qed.
+
+(* ---------- the last steps of the loop: first file "M+1 recorded", second file "M+1 not recorded, M+2 recorded" ---------- *)
+Definition Rsh (sh sh' : list (N * nat)) : Prop := cnt sh = cnt sh' /\ (itl sh' <= itl sh + 13)%nat.
+
+Lemma Rsh_cons p sh sh' : Rsh sh sh' -> Rsh (p :: sh) (p :: sh').
+Proof. unfold Rsh, cnt, itl. cbn [map]. rewrite !list_sum_cons. lia. Qed.
+
+Lemma sl_S n id x conv start cur :
+  sections_loop (S n) id x conv start cur =
+  match Save.xget x id with
+  | Some e => sections_loop n (id + 1) x conv (match cur with [] => id | _ => start end) (cur ++ [conv e])
+  | None => match cur with
+            | [] => sections_loop n (id + 1) x conv id []
+            | _ => (match cur with [] => id | _ => start end, cur) :: sections_loop n (id + 1) x conv id []
+            end
+  end.
+Proof. reflexivity. Qed.
+
+Lemma has_some x j : has x j = true -> exists e, Save.xget x j = Some e.
+Proof. unfold has. destruct (Save.xget x j) as [e|]; [eauto | discriminate]. Qed.
+
+Lemma stream_tail_step : forall n id x x' conv conv' start cur cur',
+  (forall j, id <= j -> j < id + N.of_nat n -> has x j = has x' j) ->
+  has x (id + N.of_nat n) = true -> has x' (id + N.of_nat n) = false -> has x' (id + N.of_nat n + 1) = true ->
+  id + N.of_nat n + 1 < u32_mod -> length cur = length cur' ->
+  Rsh (shape (sections_loop (S n) id x conv start cur)) (shape (sections_loop (S (S n)) id x' conv' start cur')).
+Proof.
+  induction n as [|n IH]; intros id x x' conv conv' start cur cur' Hh H1 H2 H3 Hb Hl.
+  - replace (id + N.of_nat 0) with id in * by lia.
+    destruct (has_some _ _ H1) as [e E1]. apply has_none in H2. destruct (has_some _ _ H3) as [e' E3].
+    rewrite (sl_S 0 id x), E1. rewrite (sl_S 1 id x'), H2.
+    pose proof (N_dec_succ id) as Hs. pose proof (N_dec_u32 (id + 1) Hb) as Hu.
+    destruct cur as [|c cur], cur' as [|c' cur']; try discriminate.
+    + rewrite (sl_S 0 (id + 1) x'), E3. cbn [sections_loop app shape map fst snd length].
+      unfold Rsh, cnt, itl, pair_len. cbn [map fst snd]. rewrite !list_sum_cons. cbn [list_sum fold_right]. lia.
+    + rewrite (sl_S 0 (id + 1) x'), E3. cbn [sections_loop app shape map fst snd].
+      unfold Rsh, cnt, itl, pair_len. cbn [map fst snd]. rewrite !list_sum_cons. cbn [list_sum fold_right].
+      cbn [length] in *. rewrite app_length. cbn [length].
+      pose proof (N_dec_mono (N.of_nat (S (length cur'))) (N.of_nat (S (length cur + 1))) ltac:(lia)).
+      change (length (N_dec (N.of_nat 1))) with 1%nat. lia.
+  - replace (id + N.of_nat (S n)) with (id + 1 + N.of_nat n) in * by lia.
+    assert (Hh' : forall j, id + 1 <= j -> j < id + 1 + N.of_nat n -> has x j = has x' j) by (intros; apply Hh; lia).
+    pose proof (Hh id ltac:(lia) ltac:(lia)) as Hid. unfold has in Hid.
+    rewrite (sl_S (S n) id x), (sl_S (S (S n)) id x').
+    assert (Hs : match cur with [] => id | _ => start end = match cur' with [] => id | _ => start end)
+      by (destruct cur, cur'; try discriminate; reflexivity).
+    destruct (Save.xget x id) as [e|], (Save.xget x' id) as [e'|]; try discriminate.
+    + rewrite Hs. apply IH; try assumption; rewrite !app_length; cbn [length]; lia.
+    + destruct cur as [|c cur], cur' as [|c' cur']; try discriminate.
+      * apply IH; try assumption; reflexivity.
+      * cbn [shape map fst snd]. rewrite Hl. apply Rsh_cons. apply IH; try assumption; reflexivity.
+Qed.
+
+(* ---------- the dictionary of the cross-reference stream ---------- *)
+Lemma dlen_norm_le d : Forall (fun kv : bytes * obj => (wlen (norm_obj (snd kv)) <= wlen (snd kv))%nat) d ->
+  (dlen (norm_dict d) <= dlen d)%nat.
+Proof.
+  induction 1 as [|[k v] d H _ IH]; [cbn; lia|]. cbn [norm_dict map fst snd]. fold (norm_dict d). rewrite !dlen_cons.
+  unfold elen. rewrite need_sep_norm. unfold wlen in H. cbn [snd] in H. lia.
+Qed.
+
+Lemma dlen_xs_trailer T sz idx len : dict_wf T ->
+  (dlen (xs_trailer T sz idx len) + glen K_Type (dict_get T K_Type) + glen Save.K_Size (dict_get T Save.K_Size)
+   + glen Save.K_W (dict_get T Save.K_W) + glen Save.K_Index (dict_get T Save.K_Index)
+   + glen K_Filter (dict_get T K_Filter) + glen K_Length (dict_get T K_Length)
+   = dlen T + elen K_Type (OName K_XRef) + elen Save.K_Size (OInt sz) + elen Save.K_W xs_W
+     + elen Save.K_Index idx + elen K_Length (OInt len))%nat.
+Proof.
+  intro W. unfold xs_trailer.
+  set (a1 := dict_set T K_Type (OName K_XRef)). set (a2 := dict_set a1 Save.K_Size (OInt sz)).
+  set (a3 := dict_set a2 Save.K_W xs_W). set (a4 := dict_set a3 Save.K_Index idx).
+  set (a5 := dict_swap_remove a4 K_Filter).
+  assert (W4 : dict_wf a4) by (unfold a4, a3, a2, a1; repeat apply dict_set_wf; exact W).
+  pose proof (dlen_set T K_Type (OName K_XRef)) as E1. fold a1 in E1.
+  pose proof (dlen_set a1 Save.K_Size (OInt sz)) as E2. fold a2 in E2.
+  pose proof (dlen_set a2 Save.K_W xs_W) as E3. fold a3 in E3.
+  pose proof (dlen_set a3 Save.K_Index idx) as E4. fold a4 in E4.
+  pose proof (dlen_swap_remove a4 K_Filter W4) as E5. fold a5 in E5.
+  pose proof (dlen_set a5 K_Length (OInt len)) as E6.
+  assert (G2 : dict_get a1 Save.K_Size = dict_get T Save.K_Size)
+    by (unfold a1; rewrite !FilterProofsDict.dict_get_set_other by discriminate; reflexivity).
+  assert (G3 : dict_get a2 Save.K_W = dict_get T Save.K_W)
+    by (unfold a2, a1; rewrite !FilterProofsDict.dict_get_set_other by discriminate; reflexivity).
+  assert (G4 : dict_get a3 Save.K_Index = dict_get T Save.K_Index)
+    by (unfold a3, a2, a1; rewrite !FilterProofsDict.dict_get_set_other by discriminate; reflexivity).
+  assert (G5 : dict_get a4 K_Filter = dict_get T K_Filter)
+    by (unfold a4, a3, a2, a1; rewrite !FilterProofsDict.dict_get_set_other by discriminate; reflexivity).
+  assert (G6 : dict_get a5 K_Length = dict_get T K_Length).
+  { unfold a5. rewrite (FilterProofsDict.dict_get_swap_remove_other a4 K_Filter K_Length W4) by discriminate.
+    unfold a4, a3, a2, a1. rewrite !FilterProofsDict.dict_get_set_other by discriminate. reflexivity. }
+  rewrite G2 in E2. rewrite G3 in E3. rewrite G4 in E4. rewrite G5 in E5. rewrite G6 in E6. lia.
+Qed.
+
+(* the trailer of the reloaded document: the stream dictionary in normal form without Length, W, Index *)
+Section SecondDict.
+  Variables (tr : dict) (sz : Z) (idx : obj) (len : Z).
+  Hypothesis W : dict_wf tr.
+  Hypothesis Hidx : norm_obj idx = idx.
+  Let t6 := xs_trailer tr sz idx len.
+  Let n6 := norm_dict t6.
+
+  Lemma n6_wf : dict_wf n6.
+  Proof. apply norm_dict_wf, xs_trailer_wf. exact W. Qed.
+
+  Lemma n6_get k : dict_get n6 k = option_map norm_obj (dict_get t6 k).
+  Proof. apply dict_get_norm. Qed.
+
+  Lemma T_get_type : dict_get (sr3 n6) K_Type = Some (OName K_XRef).
+  Proof. rewrite sr3_get by exact n6_wf. rewrite n6_get. unfold t6. rewrite xs_trailer_get by exact W. reflexivity. Qed.
+  Lemma T_get_size : dict_get (sr3 n6) Save.K_Size = Some (OInt sz).
+  Proof. rewrite sr3_get by exact n6_wf. rewrite n6_get. unfold t6. rewrite xs_trailer_get by exact W. reflexivity. Qed.
+  Lemma T_get_w : dict_get (sr3 n6) Save.K_W = None.
+  Proof. rewrite sr3_get by exact n6_wf. reflexivity. Qed.
+  Lemma T_get_index : dict_get (sr3 n6) Save.K_Index = None.
+  Proof. rewrite sr3_get by exact n6_wf. reflexivity. Qed.
+  Lemma T_get_length : dict_get (sr3 n6) K_Length = None.
+  Proof. rewrite sr3_get by exact n6_wf. reflexivity. Qed.
+  Lemma T_get_filter : dict_get (sr3 n6) K_Filter = None.
+  Proof. rewrite sr3_get by exact n6_wf. rewrite n6_get. unfold t6. rewrite xs_trailer_get by exact W. reflexivity. Qed.
+
+  Lemma dlen_sr3 :
+    (dlen (sr3 n6) + elen K_Length (OInt len) + elen Save.K_W xs_W + elen Save.K_Index idx = dlen n6)%nat.
+  Proof.
+    pose proof n6_wf as Wn. unfold sr3.
+    set (b1 := dict_swap_remove n6 K_Length). set (b2 := dict_swap_remove b1 Xref.K_W).
+    assert (W1 : dict_wf b1) by (apply swap_remove_wf; exact Wn).
+    assert (W2 : dict_wf b2) by (apply swap_remove_wf; exact W1).
+    pose proof (dlen_swap_remove n6 K_Length Wn) as R1. fold b1 in R1.
+    pose proof (dlen_swap_remove b1 Xref.K_W W1) as R2. fold b2 in R2.
+    pose proof (dlen_swap_remove b2 Xref.K_Index W2) as R3.
+    assert (G1 : dict_get n6 K_Length = Some (OInt len)).
+    { rewrite n6_get. unfold t6. rewrite xs_trailer_get by exact W. reflexivity. }
+    assert (G2 : dict_get b1 Xref.K_W = Some xs_W).
+    { unfold b1. rewrite (FilterProofsDict.dict_get_swap_remove_other n6 K_Length Xref.K_W Wn) by discriminate.
+      rewrite n6_get. unfold t6. rewrite xs_trailer_get by exact W. reflexivity. }
+    assert (G3 : dict_get b2 Xref.K_Index = Some idx).
+    { unfold b2. rewrite (FilterProofsDict.dict_get_swap_remove_other b1 Xref.K_W Xref.K_Index W1) by discriminate.
+      unfold b1. rewrite (FilterProofsDict.dict_get_swap_remove_other n6 K_Length Xref.K_Index Wn) by discriminate.
+      rewrite n6_get. unfold t6. rewrite xs_trailer_get by exact W. change (option_map norm_obj (Some idx) = Some idx).
+      cbn [option_map]. rewrite Hidx. reflexivity. }
+    rewrite G1 in R1. rewrite G2 in R2. rewrite G3 in R3. cbn [glen] in *.
+    change Xref.K_W with Save.K_W in *. change Xref.K_Index with Save.K_Index in *. lia.
+  Qed.
+
+  Lemma dlen_second sz' idx' len' :
+    (dlen (xs_trailer (sr3 n6) sz' idx' len') + elen Save.K_Size (OInt sz) + elen Save.K_Index idx + elen K_Length (OInt len)
+     = dlen n6 + elen Save.K_Size (OInt sz') + elen Save.K_Index idx' + elen K_Length (OInt len'))%nat.
+  Proof.
+    pose proof (dlen_xs_trailer (sr3 n6) sz' idx' len' (sr3_wf n6 n6_wf)) as E.
+    rewrite T_get_type, T_get_size, T_get_w, T_get_index, T_get_length, T_get_filter in E. cbn [glen] in E.
+    pose proof dlen_sr3. lia.
+  Qed.
+End SecondDict.
+
+Lemma save_core_stream_bytes d : d_max_id d + 2 < u32_mod -> binary_mark_ok (d_binary_mark d) = true ->
+  so_bytes (save_core XStream d) =
+  body_of d ++ write_indirect_object (d_max_id d + 1) 0
+                 (OStream (fst (fst (xstream_of d))) (snd (fst (xstream_of d)))) ++ startxref_bytes (blen (body_of d)).
+Proof.
+  intros Hm Hk. unfold xstream_of, save_core.
+  replace (u32_top <=? d_max_id d) with false by (symmetry; apply N.leb_gt; unfold u32_top, u32_mod in *; lia).
+  rewrite Hk. cbn [negb].
+  pose proof (xref_start_is_length d) as Hl. unfold xref_start_of, body_of, xmap_of in *.
+  destruct (save_body d) as [[body xs] x]. cbn [fst snd] in *. subst xs.
+  replace (u32_top <=? d_max_id d + 1) with false by (symmetry; apply N.leb_gt; unfold u32_top, u32_mod in *; lia).
+  destruct (xstream_parts d x (Save.blen body mod u32_mod)) as [[t c] x1]. cbn [so_bytes fst snd]. rewrite <- ?app_assoc. reflexivity.
+Qed.
+
+Lemma wio_stream_cmp id id' t t' c c' a :
+  (length (N_dec id') <= length (N_dec id) + 1)%nat -> (dlen t' <= dlen t + a)%nat -> length c' = length c ->
+  (length (write_indirect_object id' 0 (OStream t' c')) <= length (write_indirect_object id 0 (OStream t c)) + 1 + a)%nat.
+Proof.
+  intros H1 H2 H3. rewrite !wio_eq, !write_stream_eq, !write_dict_eq. repeat (rewrite !app_length; cbn [length]).
+  change (need_separator (OStream t' c')) with (need_separator (OStream t c)).
+  change (need_end_separator (OStream t' c')) with (need_end_separator (OStream t c)). unfold dlen in H2. lia.
+Qed.
+
+Definition stream_slack : nat := 16.
+
+(* ---------- STREAM FORMAT: the second file is at most 16 bytes longer than the first ---------- *)
+Theorem second_stream_le d : savable_core_enc d -> d_max_id d + 3 < u32_mod ->
+  (length (so_bytes (save_core XStream (restream d))) <= length (so_bytes (save_core XStream d)) + stream_slack)%nat.
+Proof.
+  intros Sv Hm3. pose proof (se_objects d Sv) as Ho.
+  pose proof (se_trailer d Sv) as Hwt. inversion Hwt as [| | | | | | |tr0 W Wv|]; subst.
+  rewrite (save_core_stream_bytes d) by (try apply (se_mark d Sv); lia).
+  rewrite (save_core_stream_bytes (restream d)) by (cbn [restream with_objects reloaded_stream d_max_id d_binary_mark]; try apply (se_mark d Sv); lia).
+  (* the body *)
+  assert (Hbody : (length (body_of (restream d)) <= length (body_of d))%nat).
+  { rewrite !body_of_len. cbn [restream with_objects d_objects].
+    assert (objs_len (norm_objects (d_objects d)) <= objs_len (d_objects d))%nat.
+    { apply objs_len_norm. eapply Forall_impl; [|exact Ho]. intros io [_ [_ [H _]]]. exact H. }
+    change (header_bytes (restream d)) with (header_bytes d). change (mark_bytes (restream d)) with (mark_bytes d). lia. }
+  assert (Hs : (length (startxref_bytes (blen (body_of (restream d)))) <= length (startxref_bytes (blen (body_of d))))%nat).
+  { rewrite !startxref_len. pose proof (N_dec_mono (blen (body_of (restream d))) (blen (body_of d))) as K. unfold blen in *. lia. }
+  (* the two cross-reference streams *)
+  set (M := d_max_id d) in *.
+  set (x1 := Save.xinsert (xmap_of d) (M + 1) (Save.XNormal (Save.blen (body_of d) mod u32_mod) 0)).
+  set (secs := stream_sections x1 (M + 1)).
+  set (x1' := Save.xinsert (xmap_of (restream d)) (M + 1 + 1) (Save.XNormal (Save.blen (body_of (restream d)) mod u32_mod) 0)).
+  set (secs' := stream_sections x1' (M + 1 + 1)).
+  set (t6 := xs_trailer (d_trailer d) (Z.of_N (M + 1 + 1)) (xstream_index secs) (Z.of_nat (length (xstream_content secs)))).
+  assert (E1 : xstream_of d = (t6, xstream_content secs, x1)) by (unfold xstream_of; rewrite xstream_parts_eq; reflexivity).
+  assert (Etr : d_trailer (restream d) = sr3 (norm_dict t6)).
+  { change (d_trailer (restream d)) with (sr3 (norm_dict (fst (fst (xstream_of d))))). rewrite E1. reflexivity. }
+  assert (E2 : xstream_of (restream d) =
+               (xs_trailer (sr3 (norm_dict t6)) (Z.of_N (M + 1 + 1 + 1)) (xstream_index secs') (Z.of_nat (length (xstream_content secs'))),
+                xstream_content secs', x1')).
+  { unfold xstream_of. rewrite xstream_parts_eq. rewrite Etr. reflexivity. }
+  rewrite E1, E2. cbn [fst snd].
+  change (d_max_id (restream d)) with (M + 1).
+  (* the sub-sections *)
+  assert (HR : Rsh (shape secs) (shape secs')).
+  { unfold secs, secs', stream_sections.
+    replace (N.to_nat (M + 1)) with (S (N.to_nat M)) by lia. replace (N.to_nat (M + 1 + 1)) with (S (S (N.to_nat M))) by lia.
+    assert (Hw : forall j, M < j -> writes (d_objects d) j = false).
+    { intros j Hj. apply (writes_bound _ j M); [|exact Hj]. eapply Forall_impl; [|exact Ho]. intros io [H _]. exact H. }
+    assert (Hx1 : forall j, has x1 j = (M + 1 =? j) || writes (d_objects d) j).
+    { intro j. unfold has, x1. rewrite xget_xinsert. destruct (M + 1 =? j); [reflexivity|]. apply xmap_has. }
+    assert (Hx1' : forall j, has x1' j = (M + 1 + 1 =? j) || writes (d_objects d) j).
+    { intro j. unfold has, x1'. rewrite xget_xinsert. destruct (M + 1 + 1 =? j); [reflexivity|].
+      fold (has (xmap_of (restream d)) j). rewrite xmap_has. cbn [restream with_objects d_objects]. apply writes_norm. }
+    apply stream_tail_step; rewrite ?N2Nat.id.
+    - intros j Hj1 Hj2. rewrite Hx1, Hx1'.
+      replace (M + 1 =? j) with false by (symmetry; apply N.eqb_neq; lia).
+      replace (M + 1 + 1 =? j) with false by (symmetry; apply N.eqb_neq; lia). reflexivity.
+    - rewrite Hx1. replace (M + 1 =? 1 + M) with true by (symmetry; apply N.eqb_eq; lia). reflexivity.
+    - rewrite Hx1'. replace (M + 1 + 1 =? 1 + M) with false by (symmetry; apply N.eqb_neq; lia). apply Hw. lia.
+    - rewrite Hx1'. replace (M + 1 + 1 =? 1 + M + 1) with true by (symmetry; apply N.eqb_eq; lia). reflexivity.
+    - unfold u32_mod in *. lia.
+    - reflexivity. }
+  destruct HR as [Hcnt Hitl].
+  assert (Hc : length (xstream_content secs') = length (xstream_content secs)) by (rewrite !xstream_content_len; lia).
+  (* the dictionaries *)
+  assert (Hd : (dlen (xs_trailer (sr3 (norm_dict t6)) (Z.of_N (M + 1 + 1 + 1)) (xstream_index secs') (Z.of_nat (length (xstream_content secs'))))
+                <= dlen t6 + 15)%nat).
+  { pose proof (dlen_second (d_trailer d) (Z.of_N (M + 1 + 1)) (xstream_index secs) (Z.of_nat (length (xstream_content secs)))
+                  W (norm_index secs) (Z.of_N (M + 1 + 1 + 1)) (xstream_index secs') (Z.of_nat (length (xstream_content secs')))) as E.
+    fold t6 in E. rewrite Hc in E. rewrite Hc.
+    assert (Hn : (dlen (norm_dict t6) <= dlen t6)%nat).
+    { apply dlen_norm_le. unfold t6. apply (xs_trailer_forall (fun v => (wlen (norm_obj v) <= wlen v)%nat)); try exact W; try (cbn; lia).
+      - eapply Forall_impl; [|exact Wv]. intros kv Hkv. apply write_norm_le. exact Hkv.
+      - rewrite norm_index. lia. }
+    pose proof (elen_int_succ Save.K_Size (M + 1 + 1)) as Hsz.
+    destruct (index_wlen secs) as [_ I1]. destruct (index_wlen secs') as [I2 _].
+    assert (Hi : (elen Save.K_Index (xstream_index secs') <= elen Save.K_Index (xstream_index secs) + 14)%nat).
+    { unfold elen. change (need_separator (xstream_index secs')) with (need_separator (xstream_index secs)). unfold wlen in *. lia. }
+    lia. }
+  pose proof (wio_stream_cmp (M + 1) (M + 1 + 1) t6 _ (xstream_content secs) (xstream_content secs') 15 (N_dec_succ (M + 1)) Hd Hc) as Hw.
+  unfold stream_slack. rewrite !app_length. lia.
+Qed.
+
+(* ================================ the second file, from the first ================================ *)
+Definition slack (xt : xref_type) : nat := match xt with XTable => 0%nat | XStream => stream_slack end.
+
+(* the property's comparison of sizes: |save xt (load (save xt d))| <= |save xt d| + slack xt *)
+Theorem second_file_le xt d : savable_enc d -> cycles_fit xt d ->
+  (length (so_bytes (save xt (reloaded xt d))) <= length (so_bytes (save xt d)) + slack xt)%nat.
+Proof.
+  intros S Hfit. pose proof (savable_written_enc d S) as S0.
+  rewrite (save_written xt d), (save_written xt (reloaded xt d)). destruct xt; cbn [reloaded slack].
+  - rewrite written_reloaded_table_enc by exact S0. pose proof (second_table_le (written d) S0). lia.
+  - rewrite written_reloaded_stream_enc by exact S0. apply second_stream_le; [exact S0|].
+    rewrite written_savable_enc by exact S. exact Hfit.
+Qed.
+
+(* the first file is below 4 GiB with [slack xt] bytes to spare (0 for the table format, 16 for the stream format) *)
+Definition small_file_slack (xt : xref_type) (d : doc) : Prop :=
+  Save.blen (so_bytes (save xt d)) + N.of_nat (slack xt) < u32_mod.
+
+Lemma small_file_of_slack xt d : small_file_slack xt d -> small_file xt d.
+Proof. unfold small_file_slack, small_file. lia. Qed.
+
+Theorem small_file_second xt d : savable_enc d -> cycles_fit xt d -> small_file_slack xt d -> small_file xt (reloaded xt d).
+Proof.
+  intros S Hfit Hs. pose proof (second_file_le xt d S Hfit) as H. unfold small_file_slack, small_file, Save.blen in *. lia.
+Qed.
+
+(* C01 in full with a size hypothesis on the FIRST file only *)
+Theorem load_save_full_slack xt d :
+  savable d -> known_deep d = false -> small_file_slack xt d -> cycles_fit xt d ->
+  load (so_bytes (save xt d)) = LOk (reloaded xt d) (xtype_of xt) /\
+  same_doc d (reloaded xt d) /\
+  load (so_bytes (save xt (reloaded xt d))) = LOk (reloaded xt (reloaded xt d)) (xtype_of xt) /\
+  same_doc (reloaded xt d) (reloaded xt (reloaded xt d)) /\
+  same_doc d (reloaded xt (reloaded xt d)).
+Proof.
+  intros S K Hs Hfit.
+  destruct (load_save_full xt d S K (small_file_of_slack xt d Hs) Hfit) as [L1 [D1 H2]].
+  destruct (H2 (small_file_second xt d (savable_enc_of d S) Hfit Hs)) as [L2 [D2 D3]].
+  split; [exact L1|]. split; [exact D1|]. split; [exact L2|]. split; assumption.
+Qed.
+
+Theorem load_save_enc_slack decompress can_decompress (R : Type) (ret : lres -> R) (after : Xref.xmap -> doc -> xtype -> R) xt d :
+  savable_enc d -> known_deep d = false -> small_file_slack xt d -> cycles_fit xt d ->
+  (exists x : Save.xmap, Forall normal_ok x /\
+     load_encx decompress can_decompress R ret after (so_bytes (save xt d)) =
+     if dict_has (d_trailer d) Save.K_Encrypt then after (conv_map x) (reloaded xt d) (xtype_of xt)
+     else ret (LOk (reloaded xt d) (xtype_of xt))) /\
+  same_doc d (reloaded xt d) /\
+  (exists x : Save.xmap, Forall normal_ok x /\
+     load_encx decompress can_decompress R ret after (so_bytes (save xt (reloaded xt d))) =
+     if dict_has (d_trailer (reloaded xt d)) Save.K_Encrypt
+     then after (conv_map x) (reloaded xt (reloaded xt d)) (xtype_of xt)
+     else ret (LOk (reloaded xt (reloaded xt d)) (xtype_of xt))) /\
+  same_doc (reloaded xt d) (reloaded xt (reloaded xt d)) /\
+  same_doc d (reloaded xt (reloaded xt d)).
+Proof.
+  intros S K Hs Hfit.
+  destruct (load_save_enc decompress can_decompress R ret after xt d S K (small_file_of_slack xt d Hs) Hfit) as [L1 [D1 H2]].
+  destruct (H2 (small_file_second xt d S Hfit Hs)) as [L2 [D2 D3]].
+  split; [exact L1|]. split; [exact D1|]. split; [exact L2|]. split; assumption.
+Qed.
+
+(* ---------- what a string costs in the file (for the size of an ENCRYPTED document, notes/C05.md) ---------- *)
+Lemma lit_emit_len : forall text i esc, (length text <= length (lit_emit i text esc) <= 2 * length text)%nat.
+Proof.
+  induction text as [|b t IH]; intros i esc; cbn [lit_emit length]; [lia|].
+  specialize (IH (S i) esc). destruct (nat_in i esc); cbn [length]; lia.
+Qed.
+
+(* a literal string of n bytes is written in n + 2 .. 2 n + 2 bytes, a hexadecimal string in 2 n + 2 *)
+Theorem string_written_length s :
+  (length s + 2 <= length (write_literal s) <= 2 * length s + 2)%nat /\ length (write_hex s) = (2 * length s + 2)%nat.
+Proof.
+  split.
+  - unfold write_literal. cbn [length]. rewrite app_length. cbn [length].
+    pose proof (lit_emit_len s 0%nat (lit_scan 0 s [] [])). lia.
+  - unfold write_hex. cbn [length]. rewrite app_length. cbn [length].
+    assert (length (flat_map hex2_upper s) = (2 * length s)%nat).
+    { induction s as [|b t IH]; [reflexivity|]. cbn [flat_map length app hex2_upper]. rewrite IH. lia. }
+    lia.
 Qed.
